@@ -25,10 +25,10 @@ def tctxOf (P : Parser) (rank : Sym → Nat) (toks : List (Tok Sym)) : TCtx Sym 
   { G := P.cfg, P := extGram P.prods P.start, N := fun s => decide (s ∈ P.nullables),
     rank := fun s => if s = startSym then rank P.start + 1 else rank s, toks := toks }
 
-theorem tctxOK_of_built {inp : CtorIn} (hB : Built inp P) (hnd : (P.prods.map (·.1)).Nodup) :
+theorem tctxOK_of_built (hB : Core P) (hnd : (P.prods.map (·.1)).Nodup) :
     ∃ rank : Sym → Nat, ∀ toks, TCtxOK (tctxOf P rank toks) := by
-  have h1 := verifyPart1_ok hB.hV
-  have hendT : endSym ∈ P.terminals := by rw [hB.hterms]; exact mem_sadd.2 (Or.inr rfl)
+  have h1 := hB.hV
+  have hendT : endSym ∈ P.terminals := hB.hendT
   obtain ⟨rank, hrank⟩ := recCheck_rank hnd (fun k hk => mem_sortedKeys.2 hk) hB.hR
   refine ⟨rank, fun toks => ?_⟩
   have hrules : ∀ X p, X ≠ startSym → p ∈ (extGram P.prods P.start).prods X →
@@ -82,7 +82,7 @@ theorem tstack_init (rank : Sym → Nat) (toks : List (Tok Sym)) :
           nul := by simp [initStack] }
 
 /-- C03 (termination), composed -/
-theorem parse_terminates_of_built {inp : CtorIn} (hB : Built inp P) (hnd : (P.prods.map (·.1)).Nodup)
+theorem parse_terminates_of_built (hB : Core P) (hnd : (P.prods.map (·.1)).Nodup)
     (raw : List (List Char × List Char)) :
     ∃ k, ∀ fuel, k ≤ fuel → P.parse raw fuel ≠ .error .outOfFuel := by
   obtain ⟨rank, hC⟩ := tctxOK_of_built hB hnd
